@@ -25,6 +25,8 @@ import (
 // ---------- C07: decoder totality and linear memory ----------
 
 // decWorker: hex input per line -> "<ok|fail|PANIC> <bytes allocated>"
+var recvBuf []byte
+
 func decWorker() {
 	debug.SetGCPercent(-1)
 	var lim syscall.Rlimit
@@ -39,7 +41,20 @@ func decWorker() {
 		if err != nil {
 			return
 		}
-		b, _ := hex.DecodeString(strings.TrimSpace(line))
+		raw, _ := hex.DecodeString(strings.TrimSpace(line))
+		// the message is the filled part of a large receive buffer: nothing beyond len(b) is
+		// the decoder's to read, whatever the capacity says
+		if recvBuf == nil {
+			recvBuf = make([]byte, 4<<20, 4<<20+(16<<20))
+			for i := range recvBuf {
+				recvBuf[i] = byte(0x41 + i%23)
+			}
+		}
+		b := raw
+		if len(raw) <= 1<<20 {
+			copy(recvBuf, raw)
+			b = recvBuf[:len(raw)]
+		}
 		runtime.ReadMemStats(&ms)
 		before := ms.TotalAlloc
 		res := "fail"
@@ -202,7 +217,9 @@ func hostileDecInputs(r *rand.Rand, n int, thorough bool) ([][]byte, []string) {
 			add(hdr(t), "valid-deep-with-leaves")
 		}
 	}
-	// recursive descent: one stack frame per nesting level (truncated, so nothing is built)
+	// recursive descent: one stack frame per nesting level (truncated, so nothing is built);
+	// a quarter of the depth that exhausts the stack has to be handled
+	add(hdr(bytes.Repeat([]byte{0x01, 0x01}, stackProbeDepth/4)), "stack-depth-survivable")
 	add(hdr(bytes.Repeat([]byte{0x01, 0x01}, stackProbeDepth)), "stack-depth-probe")
 	// refused floats (NaN, infinities) and then valid float messages: a refusal must leave no
 	// state behind that the next call trips over
@@ -571,6 +588,7 @@ func suiteC11(c *Ctx) []Suite {
 // concWorker runs the concurrent workload (race-detector build) and prints DIFF lines when a
 // concurrent call returned something else than the same call alone.
 func concWorker(seed int64, rounds int) {
+	guardOff = true
 	r := rand.New(rand.NewSource(seed))
 	for round := 0; round < rounds; round++ {
 		// shared objects
@@ -655,6 +673,30 @@ func concWorker(seed int64, rounds int) {
 					return implSML("S1F1 W H->E\n<L\n  <U1 v" + salt + " w" + salt + "[3]>\n  <A[2..5] a" + salt + ">\n  ...\n>\n.")
 				},
 				func(string) string { return implDec(enc) },
+				func(string) string {
+					// a receive loop: the frame is decoded from a buffer that is refilled while
+					// another goroutine is still working with the decoded message
+					buf := make([]byte, len(enc))
+					copy(buf, enc)
+					out := "fail"
+					safely(func() {
+						m2, ok := hsms.Parse(buf)
+						if !ok {
+							return
+						}
+						done := make(chan string, 1)
+						go func() {
+							res := "PANIC"
+							safely(func() { res = hx(m2.ToBytes()) })
+							done <- res
+						}()
+						for i := range buf {
+							buf[i] = 0xEE
+						}
+						out = <-done
+					})
+					return out
+				},
 			)
 		}
 		type rec struct {
